@@ -86,10 +86,10 @@ impl Prop for C19 {
             ));
         }
         for s in &self.sets18 {
-            d.push(Dom::new(format!("index:{}/{}", s.l.tag(), s.name), seqs_len(s.menu.len() as u64, s.lo, s.hi), s.block * 4));
+            d.push(Dom::new(format!("index:{}/{}", s.l.tag(), s.name), c18::set_len(s), s.block * 4));
         }
-        d.push(Dom::new(format!("index: interleaved add / prepare histories<={}", self.hist_depth + 5), seqs_len(5, 1, self.hist_depth + 5), 500).note(
-            "every sequence over {add x3 (a short title, a two-word title, a word-less title), prepare x2} on ONE store: the counter vector has to follow the record count through every interleaving",
+        d.push(Dom::new(format!("index: interleaved add / prepare / clear histories<={}", self.hist_depth + 4), seqs_len(6, 1, self.hist_depth + 4), 500).note(
+            "every sequence over {add x3 (a short title, a two-word title, a word-less title), prepare x2, Store::clear} on ONE store: the counter vector has to follow the record count through every interleaving",
         ));
         d
     }
@@ -224,7 +224,7 @@ impl Prop for C19 {
                 }
             }
             d if d == 4 + LANGS19.len() + self.sets18.len() => {
-                let seq = seq_at(5, 1, self.hist_depth + 5, idx);
+                let seq = seq_at(6, 1, self.hist_depth + 4, idx);
                 let titles = ["aba", "ab ba", "--"];
                 let queries = ["ab", "ba a"];
                 let mut st = St::new(L::None);
@@ -235,7 +235,10 @@ impl Prop for C19 {
                 let mut n = 0usize;
                 let r = guard(|| {
                     for op in &seq {
-                        if *op < 3 {
+                        if *op == 5 {
+                            st.store.clear();
+                            n = 0;
+                        } else if *op < 3 {
                             let _ = st.add(&rec(100 + n, titles[*op], n));
                             n += 1;
                         } else {
@@ -247,7 +250,7 @@ impl Prop for C19 {
                 if seq.iter().filter(|o| **o >= 3).count() >= 2 && seq.iter().any(|o| *o < 3) {
                     cx.nontrivial();
                 }
-                self.judge(cx, r, || format!("one store, operations {:?}", seq.iter().map(|o| if *o < 3 { format!("add({:?})", titles[*o]) } else { format!("prepare({:?})", queries[*o - 3]) }).collect::<Vec<_>>()));
+                self.judge(cx, r, || format!("one store, operations {:?}", seq.iter().map(|o| if *o == 5 { "clear()".to_string() } else if *o < 3 { format!("add({:?})", titles[*o]) } else { format!("prepare({:?})", queries[*o - 3]) }).collect::<Vec<_>>()));
             }
             d => {
                 let set = &self.sets18[d - 4 - LANGS19.len()];
